@@ -814,9 +814,13 @@ class WcSplit(Generic[AnyStr]):
         """Handle character group."""
 
         c = next(i)
-        if c == '!':
+        if c in ('!', '^'):
             c = next(i)
-        if c in ('^', '-', '['):
+        if c == '[':
+            # A POSIX class right at the start: its `]` does not close the bracket.
+            i.match(RE_POSIX)
+            c = next(i)
+        elif c in ('-', ']'):
             c = next(i)
 
         try:
@@ -824,6 +828,9 @@ class WcSplit(Generic[AnyStr]):
                 if c == '\\':
                     # Handle escapes
                     self._references(i, True)
+                elif c == '[':
+                    # Skip over a POSIX class: its `]` does not close the bracket.
+                    i.match(RE_POSIX)
                 elif c == '/':
                     if self.pathname:
                         raise StopIteration
